@@ -184,6 +184,7 @@ def run(ctx, chk, tier="quick"):
         chk.indeterminate("C12.O2", where_of(f, outer), "the loop over pairs is neither `for i in range(...)` nor `for i, (a, b) in enumerate(zip(R[:-1], R[1:]))`")
         return
     tvar = inner.target.id
+    _pair_coverage(chk, f, flow, mod, outer, ivar, elem_sym, px, py_)
     # yielded level is the target variable
     lvl = y.value.elts[0]
     chk.ob("C12.O3", isinstance(lvl, ast.Name) and lvl.id == tvar, where_of(f, y),
@@ -316,6 +317,11 @@ def run(ctx, chk, tier="quick"):
                 if len(call.args) == 2 and args[0] is not None and args[1] is not None:
                     key = "range#%d" % len(ranges)
                     ranges[key] = (args[0], args[1])
+                    return Poly.atom(key)
+                if len(call.args) == 3 and args[0] is not None and args[1] is not None and args[2] is not None and args[2].const_or_none() in (1, -1):
+                    # range(a, b, -1) enumerates b+1 .. a: as a set, range(b + 1, a + 1)
+                    key = "range#%d" % len(ranges)
+                    ranges[key] = (args[0], args[1]) if args[2].const_or_none() == 1 else (args[1] + Poly.const(1), args[0] + Poly.const(1))
                     return Poly.atom(key)
                 raise Undecided("range with %d args" % len(call.args))
             return None
@@ -520,6 +526,84 @@ def run(ctx, chk, tier="quick"):
 
     # ---- O5: averaging of repeated crossings
     _averaging(ctx, chk)
+
+
+def _pair_coverage(chk, f, flow, mod, outer, ivar, elem_sym, px, py_):
+    """C12.O2: the outer loop visits every pair of consecutive samples (0 .. n-2) once.  A loop over a filtered index
+    array is read: a filter that is exact (rounded or raw ends differ) keeps every pair that has a crossing; a
+    tolerance test (isclose / allclose / abs(.) > eps) drops pairs that have one."""
+    where = where_of(f, outer)
+    req = "every pair of consecutive samples is visited once (pairs without a crossing may be skipped only by an exact test)"
+    why = "a skipped pair loses every level crossed between its two samples"
+    it = outer.iter
+    if elem_sym:
+        # enumerate(zip(R[:-1], R[1:])): all pairs by construction (the slices were matched above)
+        seq = it.args[0]
+        ok = all(isinstance(a, ast.Subscript) and isinstance(a.slice, ast.Slice) for a in seq.args)
+        lows = sorted((a.slice.lower.value if a.slice.lower is not None else 0) for a in seq.args)
+        ups = sorted(ast.unparse(a.slice.upper) if a.slice.upper is not None else "" for a in seq.args)
+        chk.ob("C12.O2", ok and lows == [0, 1] and ups == ["", "-1"], where, "pairs = %s" % ast.unparse(seq)[:80], req, key="regrid|pair-coverage", why=why)
+        return
+
+    def samples_len(e):
+        """len(A) - 1 with A one of the sample arrays (or .size / .shape[0])."""
+        try:
+            p = py_poly(e, callname=lambda c: ("LEN" if (isinstance(c.func, ast.Name) and c.func.id == "len" and len(c.args) == 1) else None))
+        except NotAlgebraic:
+            return None
+        ats = sorted(p.atoms())
+        if len(ats) != 1 or not ats[0].startswith("LEN("):
+            return None
+        if p.coeff_of_atom(ats[0]).const_or_none() != 1:
+            return None
+        return p.without_atom(ats[0]).const_or_none()
+
+    itv = flow.def_value(it) if isinstance(it, ast.Name) else it
+    if isinstance(itv, ast.Call) and isinstance(itv.func, ast.Name) and itv.func.id == "range" and not itv.keywords:
+        a = itv.args
+        start = 0
+        if len(a) >= 2:
+            try:
+                start = py_poly(a[0]).const_or_none()
+            except NotAlgebraic:
+                start = None
+        stop = samples_len(a[0] if len(a) == 1 else a[1])
+        step_ok = len(a) < 3 or (isinstance(a[2], ast.Constant) and a[2].value == 1)
+        if start is None or stop is None or not step_ok:
+            chk.indeterminate("C12.O2", where, "bounds of the pair loop %s not read" % ast.unparse(itv)[:60])
+            return
+        chk.ob("C12.O2", start == 0 and stop == -1, where, "pairs i = %s .. len%+d - 1" % (start, int(stop)), req + ": i = 0 .. len - 2", key="regrid|pair-coverage", why=why)
+        return
+    # a filtered index array: np.flatnonzero(C) / np.nonzero(C)[0] / np.where(C)[0]
+    core = itv
+    while isinstance(core, ast.Subscript) and isinstance(core.slice, ast.Constant) and core.slice.value == 0:
+        core = core.value
+    if isinstance(core, ast.Call) and (full_call_name(mod, core) or "").split(".")[-1] in ("flatnonzero", "nonzero", "where", "argwhere") and len(core.args) == 1:
+        cond = flow.expand(core.args[0])
+        txt = ast.unparse(cond)
+        tol = [c for c in ast.walk(cond) if isinstance(c, ast.Call) and (full_call_name(mod, c) or "").split(".")[-1] in ("isclose", "allclose")]
+        tol += [c for c in ast.walk(cond) if isinstance(c, ast.Compare) and len(c.ops) == 1 and isinstance(c.ops[0], (ast.Gt, ast.GtE, ast.Lt, ast.LtE))
+                and any(isinstance(x, ast.Call) and (full_call_name(mod, x) or "").split(".")[-1] in ("abs", "fabs", "absolute") for x in ast.walk(c))]
+        if tol:
+            chk.ob("C12.O2", False, where_of(f, tol[0]) if hasattr(tol[0], "lineno") else where,
+                   "pairs are selected by a tolerance test (%s): a pair whose ends differ by less than the tolerance is skipped although a level can lie between them" % txt[:80],
+                   req, key="regrid|pair-coverage", why=why + "; numpy's isclose is relative to the magnitude of the values (rtol 1e-5), so the tolerance grows with |level / step|")
+            return
+        exact = isinstance(cond, ast.Compare) and len(cond.ops) == 1 and isinstance(cond.ops[0], ast.NotEq)
+        if exact:
+            l, r = cond.left, cond.comparators[0]
+            shape = None
+            if isinstance(l, ast.Subscript) and isinstance(r, ast.Subscript) and ast.dump(l.value) == ast.dump(r.value):
+                sl = sorted([ast.unparse(l.slice), ast.unparse(r.slice)])
+                shape = set(sl) == {":-1", "1:"}
+            elif isinstance(l, ast.Call) and (full_call_name(mod, l) or "").endswith("diff") and isinstance(r, ast.Constant) and r.value == 0:
+                shape = True
+            if shape:
+                chk.ob("C12.O2", True, where, "pairs with different ends only (%s): exact test, a pair with equal ends has no level between them" % txt[:70], req, key="regrid|pair-coverage", why=why)
+                return
+        chk.indeterminate("C12.O2", where, "pairs are selected by %s: not an exact test this rule reads" % txt[:80])
+        return
+    chk.indeterminate("C12.O2", where, "which pairs the loop over %s visits is not read" % ast.unparse(it)[:60])
 
 
 def _averaging(ctx, chk):
